@@ -660,7 +660,49 @@ def check_estimator(ctx, name, gen_seed, n_batches=2):
                         report(how, "outputs after %s differ" % how, o2.tolist()[:5], full.tolist()[:5])
         info["unseen_rows"] = unseen
         info["methods"] = meths
+        # a copy is independent of the original: writing into the original's fitted arrays IN PLACE afterwards
+        # (what partial_fit / warm-started fits do) must not change what the copy returns
+        if "clone_with_fitted_parameters" in copies:
+            m2 = copies["clone_with_fitted_parameters"]
+            Bq = _batch(rng, d)
+            try:
+                before = [numpy.asarray(getattr(m2, meth)(Bq)).copy() for meth in meths]
+                touched = _scribble(model)
+                after = [numpy.asarray(getattr(m2, meth)(Bq)) for meth in meths]
+                for meth, a, b in zip(meths, before, after):
+                    if touched and not same(a, b, True):
+                        bad.append(("%s.%s:clone-shares-memory-with-original" % (cls, meth),
+                                    "outputs of the clone_with_fitted_parameters copy change when the ORIGINAL's fitted "
+                                    "arrays are modified in place", b.tolist()[:4], a.tolist()[:4]))
+                        break
+            except Exception:  # noqa: BLE001  (the scribbled original itself may be unusable; only the copy matters)
+                pass
     return bad, info
+
+
+def _scribble(obj, depth=0, seen=None):
+    """overwrite every writeable float array reachable from the fitted attributes of `obj` in place; returns the count"""
+    import numpy
+    seen = set() if seen is None else seen
+    n = 0
+    if id(obj) in seen or depth > 4:
+        return 0
+    seen.add(id(obj))
+    items = []
+    if isinstance(obj, dict):
+        items = list(obj.values())
+    elif isinstance(obj, (list, tuple)):
+        items = list(obj)
+    elif hasattr(obj, "__dict__"):
+        items = [v for k, v in vars(obj).items() if k.endswith("_") and not k.startswith("__")]
+    for v in items:
+        if isinstance(v, numpy.ndarray):
+            if v.dtype.kind == "f" and v.flags.writeable and v.size:
+                v[...] = v * 3.0 + 1.0
+                n += 1
+        elif isinstance(v, (dict, list, tuple)) or (hasattr(v, "__dict__") and hasattr(v, "get_params")):
+            n += _scribble(v, depth + 1, seen)
+    return n
 
 
 def check_criterion_instance(ctx, gen_seed):
